@@ -100,6 +100,11 @@ pub fn base(c: u64, seed: u64) -> Scenario {
     sc.sched = 0;
     sc.notify_ms = 2000;
     sc.timeout_ms = 8000;
+    // seeded per base config: sparse saving, and perfectly predictable (constant) inputs - with those no
+    // misprediction ever forces a rollback, so progress depends on the forced-save / gate logic alone
+    let h = mix(seed ^ 0x5a5e, c);
+    sc.sparse = window > 0 && h % 2 == 0;
+    sc.vals = if (h >> 8) % 3 == 0 { 1 } else { 4 };
     sc
 }
 pub const NBASE: u64 = 4 * 2 * 3 * 3;
@@ -192,6 +197,9 @@ pub fn gen_bursts(tier: Tier) -> BoxedStrategy<Scenario> {
             for p in sc.peers.iter_mut() {
                 p.slow = p.slow.min(10);
             }
+            if w % 5 == 0 {
+                sc.vals = 1; // constant inputs: every prediction is right, nothing ever forces a rollback
+            }
             sc
         })
         .boxed()
@@ -202,7 +210,7 @@ pub fn run_prop(ctx: &Ctx) -> PropReport {
     let seed = ctx.seed;
     let m = ctx.tier.pick(40u64, 120u64);
     rep.part(|| run_enum(ctx, "single_fault",
-        "bounded-exhaustive k=1: 72 base configs (window {0,1,2,8} x delay {0,2} x latency {0,20,60 ms} x {2 players, 2 players + spectator built with the same window, 3 players}) x every directed link x {drop, duplicate, +300 ms} x each of the M packets following a seeded offset (handshake or running phase; M=40 quick, 120 thorough); then 6 s of clean network; oracle: every player and spectator session is Running, advances >= 3 frames in the last 3 s, no Disconnected event, C01-C03 clauses hold, spectator stream intact; non-trivial = the fault hit a packet that was actually sent",
+        "bounded-exhaustive k=1: 72 base configs (window {0,1,2,8} x delay {0,2} x latency {0,20,60 ms} x {2 players, 2 players + spectator built with the same window, 3 players}, sparse saving and constant-vs-changing inputs seeded per config) x every directed link x {drop, duplicate, +300 ms} x each of the M packets following a seeded offset (handshake or running phase; M=40 quick, 120 thorough); then 6 s of clean network; oracle: every player and spectator session is Running, advances >= 3 frames in the last 3 s, no Disconnected event, C01-C03 clauses hold, spectator stream intact; non-trivial = the fault hit a packet that was actually sent",
         single_fault_count(m), move |i| single_fault_case(i, seed, m), eval, true));
     if ctx.tier == Tier::Thorough {
         rep.part(|| run_enum(ctx, "double_fault",
